@@ -84,21 +84,20 @@ Qed.
 Print Assumptions wellformed_pipeline_parsed_exactly_under_every_history.
 
 (** ---- the three buffers ---- *)
-From C18 Require Import Buffers.
+From C18 Require Import Buffers Total.
 
 (** [krun] is the channel with LineReceiver._buffer, the chunked decoder's own buffer and
     HTTPChannel._dataBuffer kept apart, the decoder's whole loop run inside one rawDataReceived call, and
     the finish callback's extra bytes travelling _dataBuffer -> requestDone -> setLineMode -> re-entrant
     dataReceived -> _buffer (Model.v, "Channel3"; it is the machine the correspondence check evaluates).
-    Whenever it completes a history (its loop fuel, 2*len+4, has never been seen to run out; the
-    out-of-fuel case [None] is excluded here), the single-buffer machine produces the same events and
+    It completes every history (its loop fuel never runs out: [krun .. = Some ..], Total.v), and the
+    single-buffer machine produces the same events and
     ends in the corresponding state ([alpha]: the one buffer = decoder buffer ++ _buffer, or
     _dataBuffer joined ++ _buffer while a request is handled).  So all theorems above are theorems about
     the three-buffer channel. *)
-Theorem three_buffer_channel_refines_single_buffer : forall (resp : nat -> bool) (ops : list op) e r,
-  krun resp (Some kinit) ops = Some (e, r) ->
-  run resp start ops = (e, option_map alpha r).
-Proof. exact three_buffers_refine. Qed.
+Theorem three_buffer_channel_refines_single_buffer : forall (resp : nat -> bool) (ops : list op),
+  exists e r, krun resp (Some kinit) ops = Some (e, r) /\ run resp start ops = (e, option_map alpha r).
+Proof. exact three_buffers_total. Qed.
 Print Assumptions three_buffer_channel_refines_single_buffer.
 
 (** in particular: its events do not depend on the segmentation *)
